@@ -89,7 +89,13 @@ def lawFailures (x y z : Float) (i j : Int) : List String :=
         | none => true)
       | none => true),
     ("div_mono", imp (FloatOps.le x y && FloatOps.isFinite z && pos z) (FloatOps.le (FloatOps.div x z) (FloatOps.div y z))),
-    ("mul_mono", imp (FloatOps.le x y && FloatOps.isFinite z && pos z) (FloatOps.le (FloatOps.mul x z) (FloatOps.mul y z)))]
+    ("mul_mono", imp (FloatOps.le x y && FloatOps.isFinite z && pos z) (FloatOps.le (FloatOps.mul x z) (FloatOps.mul y z))),
+    -- not a law: the hypothesis `SnapIdem` of `revalidate_unchanged_partial` / `call_idem_of_snapIdem`
+    ("hypothesis:SnapIdem", imp (FloatOps.isFinite z && pos z) (match DType.snap z x with
+      | some w => imp (FloatOps.isFinite w) (match DType.snap z w with
+        | some w' => FloatOps.same w' w
+        | none => false)
+      | none => true))]
   (checks.filter (fun c => !c.2)).map (·.1)
 
 def handle (j : Json) : R Json := do
